@@ -619,6 +619,14 @@ type defaultOperationDecorator struct {
 }
 
 func (d *defaultOperationDecorator) Decorate(op *operation.Operation) (*operation.Operation, error) {
+	if op.Type == operation.TypeCreate {
+		// a create for a DID that exists already is harmless (resolution ignores it) unless the DID has been deactivated:
+		// the response to the create would present a deactivated DID as a fresh, active one
+		if internalResult, err := d.processor.Resolve(op.UniqueSuffix); err == nil && internalResult.Deactivated {
+			return nil, fmt.Errorf("document has been deactivated, no further operations are allowed")
+		}
+	}
+
 	if op.Type != operation.TypeCreate {
 		internalResult, err := d.processor.Resolve(op.UniqueSuffix)
 		if err != nil {
